@@ -120,7 +120,7 @@ def edge_rules(ctx, rule, pl, prods, only_2d=None):
                 continue
             EF.check_filler(ctx, rule, t, bp, counts, '%s via %s' % (pr.func.name, t.name))
     if only_2d is None:
-        ctx.floor(rule, 9, 'fill sites')
+        ctx.floor(rule, 7, 'fill sites')
 
 
 def _ancestors(n, stop):
@@ -265,19 +265,36 @@ def reduced_reader_algebra(ctx, rule):
     th = P.const_value(mod, 'SEGY_TRACE_HEADER_BYTES')
     if not isinstance(fh, int) or not isinstance(th, int):
         raise AnalysisError('SEG-Y header size constants are not literal')
-    atoms = {'self.n_xl': 'NXL', 'self.n_samp': 'NS', 'i': 'i', 'h': 'h'}
+    atoms = {'self.n_xl': 'NXL', 'self.n_samp': 'NS'}
+    # the line ordinal is the parameter of read_line; the trace ordinal is the variable of the loop / comprehension
+    # over range(n_xl) that cuts the headers out of the buffer
+    line_params = [p_ for p_ in rl.params if p_ != 'self']
+    if len(line_params) != 1:
+        raise AnalysisError('%s: expected one parameter (the line ordinal)' % rl.qualname)
+    atoms[line_params[0]] = 'i'
+    for c in ast.walk(rl.node):
+        if isinstance(c, (ast.comprehension, ast.For)) and isinstance(c.target, ast.Name) and isinstance(c.iter, ast.Call) and \
+                U(c.iter.func) == 'range' and len(c.iter.args) == 1 and U(c.iter.args[0]) == 'self.n_xl':
+            atoms[c.target.id] = 'h'
     fr = Frame(rl, atoms)
     ev0 = fr.ev
 
     def ev(e, depth=0):
+        if depth > 10:
+            return None
         if isinstance(e, (ast.Name, ast.Attribute)):
             v = P.const_value(mod, U(e))
             if isinstance(v, int) and not isinstance(v, bool):
                 return Cc(v)
+        if isinstance(e, ast.Name) and U(e) not in atoms and len(fr.defs.get(e.id, [])) == 1:
+            return ev(fr.defs[e.id][0], depth + 1)
         if isinstance(e, ast.BinOp):
             l, r = ev(e.left, depth + 1), ev(e.right, depth + 1)
             if l is None or r is None:
                 return None
+            if isinstance(e.op, ast.FloorDiv) and l.is_const() and r.is_const() and r.const_value() != 0 and \
+                    l.const_value().denominator == 1 and r.const_value().denominator == 1:
+                return Cc(int(l.const_value()) // int(r.const_value()))
             return l + r if isinstance(e.op, ast.Add) else l - r if isinstance(e.op, ast.Sub) else l * r if isinstance(e.op, ast.Mult) else None
         return ev0(e, depth)
     rec = At('NXL') * (4 * At('NS') + th)
@@ -306,7 +323,8 @@ def reduced_reader_algebra(ctx, rule):
             sub = parent(c)
             cut = U(sub.slice.elts[1].lower) if isinstance(sub, ast.Subscript) and isinstance(sub.slice, ast.Tuple) and \
                 len(sub.slice.elts) == 2 and isinstance(sub.slice.elts[1], ast.Slice) and sub.slice.elts[1].lower is not None else None
-            if a0 == At('NXL') and a1 == At('NS') + th // 4 and cut == str(th // 4):
+            cutv = ev(sub.slice.elts[1].lower) if cut is not None else None
+            if a0 == At('NXL') and a1 == At('NS') + th // 4 and cutv == Cc(th // 4):
                 ctx.ok(rule, rl, c, 'rows of n_samp + %d words, the first %d (trace header) dropped' % (th // 4, th // 4))
             else:
                 ctx.fail(rule, rl, enclosing_stmt(c), 'the inline is reshaped (%r, %r) and cut at column %s; a trace is %d header words '
